@@ -729,8 +729,15 @@ func (fr *Frame) execInstr(b *ssa.BasicBlock, in ssa.Instruction, st *State, rea
 		fr.set(x, res)
 	case *ssa.ChangeInterface:
 		v := fr.get(x.X)
+		ns := fc.B.SortOf(x.Type())
+		if v.S == "Int" && ns == "Iface" {
+			// error -> any: keep identity in the payload
+			v.T = "(ite (= " + v.T + " 0) (mkI 0 0) (mkI 999999 " + v.T + "))"
+		} else if v.S == "Iface" && ns == "Int" {
+			v.T = "(ite (= (i_tag " + v.T + ") 0) 0 (ite (= (i_tag " + v.T + ") 999999) (i_pl " + v.T + ") " + fc.B.Fresh("errconv", "Int") + "))"
+		}
 		v.Typ = x.Type()
-		v.S = fc.B.SortOf(x.Type())
+		v.S = ns
 		fr.vals[x] = v
 	case *ssa.ChangeType:
 		v := fr.get(x.X)
@@ -781,7 +788,7 @@ func (fr *Frame) execInstr(b *ssa.BasicBlock, in ssa.Instruction, st *State, rea
 		np := Val{S: "Int", T: p.T, Typ: x.Type(), PBase: p.PBase}
 		np.PPath = append(append([]pathElem(nil), p.PPath...), pathElem{field: info.byName[stt.Field(x.Field).Name()], info: info})
 		fr.vals[x] = np
-		// nil dereference
+		// nil dereference: a safety site; afterwards the path continues only if non-nil (a panic aborts)
 		fc.safety(reach, eq(p.T, "0"), "nil-deref", in)
 	case *ssa.IndexAddr:
 		fr.indexAddr(x, st, reach)
@@ -914,10 +921,13 @@ func (fc *FnCtx) mapSort(mt *types.Map) string {
 
 // safety records a potential runtime panic: reach && bad.
 func (fc *FnCtx) safety(reach, bad, kind string, in interface{ Pos() token.Pos }) {
-	if bad == "false" {
+	if bad == "false" || fc.inSpec > 0 {
 		return
 	}
 	fc.safetySites = append(fc.safetySites, safetySite{cond: and(reach, bad), kind: kind, pos: posStr(fc.W, in.Pos())})
+	// a runtime panic aborts: later code is reached only if the check passed. The assumption carries a marker
+	// so that the safety obligation of this very site is assembled without it.
+	fc.B.Raw(fmt.Sprintf("(assert %s) ;;abort:%d;", implies(reach, not(bad)), len(fc.safetySites)))
 }
 
 func (fr *Frame) binop(x *ssa.BinOp, st *State, reach string) {
@@ -1219,8 +1229,6 @@ func (fr *Frame) typeAssert(x *ssa.TypeAssert, st *State, reach string) {
 	} else {
 		fc.panicSites = append(fc.panicSites, panicSite{cond: and(reach, not(okT)), desc: "type assertion", pos: posStr(fc.W, x.Pos())})
 		fc.safety(reach, not(okT), "type-assert", x)
-		// after a non-comma-ok assertion the path continues only if ok
-		fc.B.Assert(implies(reach, okT))
 		if len(val.T) > 60 {
 			val.T = fc.B.Define("ta", val.S, val.T)
 		}
@@ -1510,7 +1518,7 @@ func (fr *Frame) loopEntry(b *ssa.BasicBlock, phis []*ssa.Phi, preds []*ssa.Basi
 	if fr.isTop && fc.Mode == "contract" {
 		for i, inv := range invs {
 			env := fr.invEnv(b, entryPhis, st)
-			g := fc.evalBool(env, inv.E)
+			g := fc.evalGoal(env, inv.E)
 			fc.addObl(fmt.Sprintf("#inv%d.%s.entry", ord, clauseName(inv, i)), "body", and(reach, not(g)), inv.Src)
 		}
 	}
@@ -1606,7 +1614,7 @@ func (fr *Frame) backEdges(b *ssa.BasicBlock, st *State) {
 		for i, inv := range invs {
 			env := fr.invEnv(s, phis, st)
 			// names that are not phis must resolve to values dominating the header, which is what lookupName does
-			g := fc.evalBool(env, inv.E)
+			g := fc.evalGoal(env, inv.E)
 			fc.addObl(fmt.Sprintf("#inv%d.%s.step", ord, clauseName(inv, i)), "body", and(c, not(g)), inv.Src)
 		}
 		// the back edge contributes nothing further
